@@ -48,6 +48,7 @@ package index
 //@   ensures def: (err == nil) == byDg(ii, digestof(mhof(c)))
 
 //@ func (*InsertionIndex).Load
+//@   check every_record_is_inserted [C03,C11]: err == nil ==> rangeindex == len(rs)
 //@   call[LLRB.InsertNoReplace#0] assert keeps_duplicates [C03,C11]: true
 //@   loop[0] invariant no_error [C03]: true
 
@@ -88,6 +89,7 @@ package index
 //@   end
 
 //@ func (*singleWidthIndex).forEachDigest
+//@   check every_record_is_visited [C11]: err == nil ==> i == segmentCount
 //@   let ferr := call[dynamic#0]
 //@   let off := call[littleEndian.Uint64#0]
 //@   call[dynamic#0] assert yields_digest_and_offset_of_record_i [C11]: ref(arg0) == ref(digest) && arg1 == off && digestStart == i * s.width && digestEnd == (i + 1) * s.width - 8
@@ -138,6 +140,7 @@ package index
 //@   requires bucket [C03,C09]: 8 <= s.width && s.width <= 33554432 && s.len * s.width <= len(s.index) && s.len <= 281474976710656
 
 //@ func (*multiWidthIndex).forEachDigest
+//@   check every_bucket_is_visited [C11]: err == nil ==> rangeindex == len(sizes)
 //@   call[maplookup#0] assume stored_buckets_wellformed: 8 <= value.width && value.width <= 33554432 && value.len * value.width <= len(value.index)
 //@   call[append#0] assert collects_the_widths [C11]: ref(arg0) == ref(sizes) && len(arg1) == 1 && arg1[0] == k
 //@   call[maplookup#0] assert bucket_of_next_sorted_width [C11]: key == sizes[rangeindex]
@@ -160,6 +163,7 @@ package index
 //@   end
 
 //@ func (*multiWidthIndex).Unmarshal
+//@   check reads_every_declared_bucket [C11]: err == nil ==> i >= l
 //@   call[mapupdate#0] assert stores_wellformed_bucket [C09,C11]: 8 <= value.width && value.width <= 33554432 && value.len * value.width <= len(value.index) && key == value.width
 
 // ---- serialization (C11): byte counts, field widths, error propagation
@@ -179,6 +183,7 @@ package index
 //@   call[Writer.Write#0] assert bucket_bytes [C11]: ref(arg1) == ref(s.index)
 
 //@ func (*multiWidthIndex).Marshal
+//@   check every_bucket_is_written [C11]: err == nil ==> rangeindex == len(widths)
 //@   implements (github.com/ipld/go-car/v2/index.Index).Marshal
 //@   modifies wn(w)
 //@   let bn, berr := call[singleWidthIndex.Marshal#0]
@@ -201,6 +206,7 @@ package index
 //@   ensures mono [C11,C16]: wn(w) >= old(wn(w))
 
 //@ func (*MultihashIndexSorted).Marshal
+//@   check every_bucket_is_written [C11]: err == nil ==> rangeindex == len(codes)
 //@   implements (github.com/ipld/go-car/v2/index.Index).Marshal
 //@   modifies wn(w)
 //@   let bn, berr := call[multiWidthCodedIndex.Marshal#0]
@@ -255,6 +261,7 @@ package index
 // own digest and offset; each list is sorted before it is laid out; the bucket stored under width+8 has that width, the list's length and that compact form.
 
 //@ func (*multiWidthIndex).Load
+//@   check every_item_is_grouped [C03,C11]: err == nil ==> rangeindex == len(items)
 //@   let dec, derr := call[multihash.Decode#0]
 //@   call[multihash.Decode#0] assert own_hash [C03,C11]: true
 //@   call[append#0] assert record_kept_with_its_offset [C03,C11]: len(arg1) == 1 && ref(arg1[0].digest) == ref(dec.Digest) && arg1[0].index == item.Offset
@@ -276,6 +283,7 @@ package index
 //@   end
 
 //@ func (*MultihashIndexSorted).ForEach
+//@   check every_bucket_is_visited [C11]: err == nil ==> rangeindex == len(sizes)
 //@   call[append#0] assert collects_the_codes [C11]: ref(arg0) == ref(sizes) && len(arg1) == 1 && arg1[0] == k
 //@   call[maplookup#0] assert bucket_of_next_sorted_code [C11]: key == sizes[rangeindex]
 //@   call[multiWidthCodedIndex.forEach#0] assert same_callback [C11]: arg1 == f
@@ -295,6 +303,7 @@ package index
 //@   call[maplookup#0] assert bucket_of_the_keys_code [C03,C07]: key == dmh.Code
 
 //@ func (*MultihashIndexSorted).Load
+//@   check every_record_is_grouped [C03,C11]: err == nil ==> rangeindex == len(records)
 //@   let dmh, derr := call[multihash.Decode#0]
 //@   call[append#0] assert record_kept_whole [C03,C11]: len(arg1) == 1 && arg1[0] == record
 //@   call[mapupdate#1] assert grouped_by_own_code [C03,C11]: key == dmh.Code
@@ -370,6 +379,7 @@ package index
 //@   ensures kind [C05,C11]: result != nil
 
 //@ func (*MultihashIndexSorted).Unmarshal
+//@   check reads_every_declared_bucket [C11]: err == nil ==> i >= l
 //@   ghost after call[newMultiWidthCodedIndex#0]: mark(m) := i
 //@   call[multiWidthCodedIndex.Unmarshal#0] assert reads_into_the_new_bucket [C11]: ref(arg0) == ref(mwci) && ref(arg1) == ref(r)
 //@   call[MultihashIndexSorted.put#0] assert stores_the_bucket_created_in_this_iteration [C11]: ref(arg1) == ref(mwci) && mark(m) == i
